@@ -35,9 +35,11 @@ import (
 	"strings"
 )
 
-const modPath = "github.com/pion/turn/v5"
+var modPath = "github.com/pion/turn/v5"
 
 // packages analysed, relative to the repository root
+var withOrders = true
+
 var pkgDirs = []string{".", "internal/allocation", "internal/client", "internal/server", "internal/proto", "internal/ipnet", "internal/auth", "internal/offload"}
 
 type cmd struct {
@@ -803,7 +805,15 @@ func main() {
 	table := flag.String("table", "", "JSON table output")
 	fuel := flag.Int("fuel", 12, "call depth bound given to the checker")
 	explain := flag.String("explain", "", "write counterexample paths found by the untrusted re-check here (JSON)")
+	module := flag.String("module", modPath, "module path of the tree in the working directory")
+	pkgs := flag.String("pkgs", "", "comma-separated package directories (default: the pion/turn set)")
+	noOrders := flag.Bool("noorders", false, "do not extract the Teardown step orders")
 	flag.Parse()
+	modPath = *module
+	if *pkgs != "" {
+		pkgDirs = strings.Split(*pkgs, ",")
+	}
+	withOrders = !*noOrders
 
 	t := &translator{
 		fset: token.NewFileSet(), pkgs: map[string]*pkgInfo{}, fieldKey: map[*types.Var]string{},
@@ -1085,7 +1095,12 @@ func (t *translator) write(out, table string, fuel int) {
 	}
 	b.WriteString("].\n\n")
 	fmt.Fprintf(&b, "Definition fuel : nat := %d.\n\n", fuel)
-	otext, ords, oerr := t.orders()
+	var otext string
+	var ords map[string][]string
+	var oerr error
+	if withOrders {
+		otext, ords, oerr = t.orders()
+	}
 	if oerr != nil {
 		fmt.Fprintln(os.Stderr, "lockskel: step orders:", oerr)
 		os.Exit(3)
